@@ -1,6 +1,7 @@
 package rules
 
 import (
+	"go/token"
 	"fmt"
 	"go/types"
 	"sort"
@@ -220,17 +221,64 @@ func c35fastForward(k *eng.Check) {
 		k.Unknown("ff-ancestor-check", eng.Name(fn), "the branch on `dataset has a head`", "no If on the ok result of Dataset.MaybeHeadAddr")
 	}
 	found := eng.CondEdges(fn, `^call:store/datas\.FindCommonAncestor\(.*\)#1$`, true)
-	notNeeded := eng.CondEdges(fn, `^call:store/datas\.mergeNeeded\(`, false)
+	// "current head != common ancestor", inline or through a helper whose body is `return a != b` (mergeNeeded today)
+	mHeadAddr, mFCA := eng.Static("(store/datas.Dataset).MaybeHeadAddr"), eng.Static("store/datas.FindCommonAncestor")
+	isCur := func(v ssa.Value) bool { return c39fromCall(v, mHeadAddr) && !c39fromCall(v, mFCA) }
+	isAnc := func(v ssa.Value) bool { return c39fromCall(v, mFCA) }
+	notNeeded := eng.NewSet()
+	nCmp := 0
+	for _, b := range fn.Blocks {
+		if len(b.Instrs) == 0 {
+			continue
+		}
+		iff, ok := b.Instrs[len(b.Instrs)-1].(*ssa.If)
+		if !ok {
+			continue
+		}
+		cond, neg := iff.Cond, false
+		for {
+			u, ok := cond.(*ssa.UnOp)
+			if !ok || u.Op != token.NOT {
+				break
+			}
+			cond, neg = u.X, !neg
+		}
+		var x, y ssa.Value
+		neq := true
+		switch c := cond.(type) {
+		case *ssa.Call:
+			if C20IsNeqHelper(c.Call.StaticCallee()) && len(c.Call.Args) == 2 {
+				x, y = c.Call.Args[0], c.Call.Args[1]
+			}
+		case *ssa.BinOp:
+			if c.Op == token.NEQ || c.Op == token.EQL {
+				x, y, neq = c.X, c.Y, c.Op == token.NEQ
+			}
+		}
+		if x == nil || eng.ShortType(x.Type()) != "store/hash.Hash" || !(isAnc(x) || isAnc(y)) {
+			continue
+		}
+		nCmp++
+		ok = (isCur(x) && isAnc(y)) || (isCur(y) && isAnc(x))
+		k.Require("ff-ancestor-check", eng.Name(fn)+"#operands", "the ancestry test compares the dataset's current head with the common ancestor", ok, k.C.InstrPos(iff), "operands are not (current head address, FindCommonAncestor result)")
+		if !ok {
+			continue
+		}
+		// the edge on which the two are equal
+		eqSucc := 1
+		if !neq {
+			eqSucc = 0
+		}
+		if neg {
+			eqSucc = 1 - eqSucc
+		}
+		notNeeded.AddE(eng.Edge{From: b, Succ: eqSucc})
+	}
+	if nCmp < 1 {
+		k.Unknown("ff-ancestor-check", eng.Name(fn)+"#operands", "a comparison involving the common ancestor", "none found (confirmed floor 1)")
+	}
 	k.OnlyAfter("ff-ancestor-check", fn, "the dataset map is edited only when the dataset has no head or a common ancestor was found", upd, 1, eng.UnionOf(noHead, found))
 	k.OnlyAfter("ff-ancestor-check", fn, "the dataset map is edited only when the dataset has no head or mergeNeeded(current head, common ancestor) is false", upd, 1, eng.UnionOf(noHead, notNeeded))
-	// operands of the test: mergeNeeded(current head addr, ancestor of (current, new))
-	for _, ci := range eng.Calls(fn, eng.Static("store/datas.mergeNeeded"), false) {
-		a := ci.Common().Args
-		ok := len(a) == 2 &&
-			c39fromCall(a[0], eng.Static("(store/datas.Dataset).MaybeHeadAddr")) && !c39fromCall(a[0], eng.Static("store/datas.FindCommonAncestor")) &&
-			c39fromCall(a[1], eng.Static("store/datas.FindCommonAncestor"))
-		k.Require("ff-ancestor-check", eng.Name(fn)+"#operands", "mergeNeeded compares the dataset's current head with the common ancestor", ok, k.C.InstrPos(ci.(ssa.Instruction)), "operands are not (current head address, FindCommonAncestor result)")
-	}
 	for _, ci := range eng.Calls(fn, eng.Static("store/datas.FindCommonAncestor"), false) {
 		a := ci.Common().Args
 		ok := len(a) >= 3 && c39fromCall(a[1], eng.Static("(store/datas.Dataset).MaybeHead")) && eng.Slice(a[2], true, func(v ssa.Value) bool {
